@@ -474,6 +474,13 @@ func (h *Harness) RunState(w *World, st *State) (out *Outcome) {
 			free = append(free, f(st))
 			continue
 		}
+		// a captured variable is a cell named after the variable (the closure receives its address)
+		if pt, ok := fv.Type().Underlying().(*types.Pointer); ok {
+			cl := &cell{typ: pt.Elem(), sym: fv.Name()}
+			out.cells[fv.Name()] = cl
+			free = append(free, avPtr{cl})
+			continue
+		}
 		free = append(free, m.symbolic(fv.Name(), fv.Type()))
 	}
 	out.Ret = m.call(h.Fn, args, free)
